@@ -1,8 +1,11 @@
 (* C19 - both algorithms and equivalent formulations give mutually consistent answers.
    Statements only; proofs are in Match/*.v.  *)
 From mathcomp Require Import all_ssreflect all_fingroup all_algebra.
+From mathcomp Require Import polyorder.
 From Coq Require Import QArith List Permutation.
+Require Import MPSV.Roots.GaussZ MPSV.Roots.PolyZ MPSV.Roots.Cert MPSV.Roots.Transform MPSV.Roots.Bridge MPSV.Roots.TransformSound.
 Require Import MPSV.Match.MatchTheory MPSV.Match.MatchCheck MPSV.Match.MatchCheckProps MPSV.Match.Transform.
+Require Import MPSV.Match.SecularTheory MPSV.Match.MatchMult MPSV.Match.MatchWeak MPSV.Match.ConvertModel MPSV.Match.ConvertProps.
 Import GRing.Theory Num.Theory.
 
 (* (1) Why a matching must exist whenever both runs satisfy C01 on an input with n simple roots:
@@ -91,3 +94,205 @@ Theorem C19_inv_disc_sound :
      `|w^-1 - z^* / (`|z|^+2 - r^+2)| <= r / (`|z|^+2 - r^+2))%R.
 Proof. exact inv_disc_sound. Qed.
 Print Assumptions C19_inv_disc_sound.
+
+(* ======================================================================================== *)
+Local Close Scope Q_scope.
+Local Open Scope ring_scope.
+(* (5) The secular equation  sum_i a_i/(x - b_i) = 1  and its numerator polynomial secD - secN
+   (the polynomial computed by the extracted secular -> monomial conversion,
+   Roots/TransformSound.v secular_to_monomial_sound). *)
+
+(* monic of degree n *)
+Theorem C19_secular_poly_monic :
+  forall (F : fieldType) (ab : seq.seq (F * F)),
+    size (secD ab - secN ab)%R = (size ab).+1 /\ (secD ab - secN ab)%R \is monic.
+Proof. by move=> F ab; split; [exact: size_sec_poly | exact: monic_sec_poly]. Qed.
+Print Assumptions C19_secular_poly_monic.
+
+(* away from the poles: root of the polynomial <-> solution of the secular equation *)
+Theorem C19_secular_root_equiv :
+  forall (F : fieldType) (ab : seq.seq (F * F)) (x : F), x \notin poles ab ->
+    root (secD ab - secN ab)%R x <-> (\sum_(p <- ab) p.1 / (x - p.2) = 1)%R.
+Proof. exact secular_root_equiv. Qed.
+Print Assumptions C19_secular_root_equiv.
+
+(* at a pole (distinct b_i): value of the polynomial, and  b_i is a root iff a_i = 0 *)
+Theorem C19_secular_pole_root_iff :
+  forall (F : fieldType) (ab : seq.seq (F * F)) (a b : F),
+    uniq (poles ab) -> (a, b) \in ab ->
+    (secD ab - secN ab).[b]%R = (- (a * \prod_(t <- ab | t.2 != b) (b - t.2)))%R /\
+    root (secD ab - secN ab)%R b = (a == 0%R).
+Proof. by move=> F ab a b u i; split; [exact: sec_poly_at_pole | exact: pole_root_iff]. Qed.
+Print Assumptions C19_secular_pole_root_iff.
+
+(* as rational functions:  1 - sum_i a_i/(X - b_i) = (secD - secN)/secD  in the fraction field *)
+Theorem C19_secular_rational_function :
+  forall (F : fieldType) (ab : seq.seq (F * F)),
+    sec_frac ab = (FracField.tofrac (secD ab - secN ab) / FracField.tofrac (secD ab))%R.
+Proof. exact sec_frac_eq. Qed.
+Print Assumptions C19_secular_rational_function.
+
+(* same multiplicities: whatever quotient u/v of polynomials represents the secular function, its order
+   at a point x that is not a pole (mu_x u - mu_x v) is the multiplicity of x in secD - secN *)
+Theorem C19_secular_multiplicity :
+  forall (F : fieldType) (ab : seq.seq (F * F)) (x : F) (u v : {poly F}),
+    x \notin poles ab -> v != 0%R ->
+    sec_frac ab = (FracField.tofrac u / FracField.tofrac v)%R ->
+    \mu_x u = addn (\mu_x v) (\mu_x (secD ab - secN ab)).
+Proof. exact sec_multiplicity. Qed.
+Print Assumptions C19_secular_multiplicity.
+
+Example C19_secular_multiplicity_nonvacuous :
+  exists (ab : seq.seq (rat * rat)) (x : rat), x \notin poles ab /\ root (secD ab - secN ab)%R x.
+Proof.
+(* 2/(x-1) = 1 : root x = 3 *)
+exists [:: (2%:R, 1)%R], 3%:R%R; split=> //.
+by rewrite /root /= !(hornerE, hornerXsubC) /=.
+Qed.
+
+(* regeneration (secular-regeneration.c, exact): a_i = - p(b_i) / (lc p * prod_(j<>i) (b_i - b_j)) on n distinct
+   nodes gives back p up to its leading coefficient; same multiplicities; root test in secular terms *)
+Theorem C19_regen_sound :
+  forall (F : fieldType) (p : {poly F}) (bs : seq.seq F), uniq bs -> size p = (size bs).+1 ->
+    (lead_coef p *: (secD (regen p bs) - secN (regen p bs)) = p)%R /\
+    (forall x, (\mu_x (secD (regen p bs) - secN (regen p bs)))%R = (\mu_x p)%R) /\
+    (forall x, root p x <->
+       (if x \in bs then SecularTheory.regen_coeff p bs x == 0%R
+        else (\sum_(t <- regen p bs) t.1 / (x - t.2))%R == 1%R)).
+Proof.
+move=> F p bs u s; split; first exact: regen_sound.
+by split=> x; [exact: regen_mu | exact: regen_root].
+Qed.
+Print Assumptions C19_regen_sound.
+
+Example C19_regen_nonvacuous :
+  exists (p : {poly rat}) (bs : seq.seq rat), uniq bs /\ size p = (size bs).+1.
+Proof. by exists ('X^2 - 1%:P)%R, [:: 0%R; 2%:R%R]; split=> //; rewrite size_addl ?size_polyXn // size_opp size_polyC. Qed.
+
+(* ======================================================================================== *)
+(* (6) The extracted conversions (Match/ConvertModel.v, run by bin/matchq on every check) denote the intended
+   operations over any algebraically closed field C. *)
+Theorem C19_conv_scale_sound :
+  forall (C : numClosedFieldType) (c : gq) (p : qpoly), gq_wf c -> all gq_wf p ->
+    all gq_wf (conv_scale c p) /\ QP2C C (conv_scale c p) = (Q2C C c *: QP2C C p)%R.
+Proof. exact conv_scale_sound. Qed.
+Print Assumptions C19_conv_scale_sound.
+
+Theorem C19_conv_rescale_sound :
+  forall (C : numClosedFieldType) (alpha : gq) (p : qpoly), gq_wf alpha -> all gq_wf p ->
+    all gq_wf (conv_rescale alpha p) /\
+    QP2C C (conv_rescale alpha p) = (QP2C C p \Po (Q2C C alpha *: 'X))%R.
+Proof. exact conv_rescale_sound. Qed.
+Print Assumptions C19_conv_rescale_sound.
+
+Theorem C19_conv_reverse_sound :
+  forall (C : numClosedFieldType) (p : qpoly), Q2C C (List.last p gq_zero) != 0%R ->
+    QP2C C (conv_reverse p) = revp (QP2C C p).
+Proof. exact conv_reverse_sound. Qed.
+Print Assumptions C19_conv_reverse_sound.
+
+Theorem C19_conv_secular_sound :
+  forall (C : numClosedFieldType) (p : qpoly) (bs : list gq), conv_secular_pre p bs ->
+    let ab := ab2C C (conv_secular p bs) in
+    [/\ uniq (poles ab),
+        (Q2C C (List.last p gq_zero) *: (secD ab - secN ab) = QP2C C p)%R,
+        (Q2C C (List.last p gq_zero) *: QP2C C (secular_poly (conv_secular p bs)) = QP2C C p)%R
+      & forall x, (\mu_x (secD ab - secN ab))%R = (\mu_x (QP2C C p))%R].
+Proof. exact conv_secular_sound. Qed.
+Print Assumptions C19_conv_secular_sound.
+
+Example C19_conv_secular_nonvacuous :
+  conv_secular_pre [:: ((1, 0), 1); ((0, 0), 1); ((-3, 2), 1); ((1, 0), 2)]%Z
+                   [:: ((5, 0), 1); ((7, 1), 2); ((0, 1), 3)]%Z = true.
+Proof. by vm_compute. Qed.
+
+(* validated conversions: data proposed by untrusted code, accepted by the extracted test *)
+Theorem C19_secular_back_sound :
+  forall (C : numClosedFieldType) (p : qpoly) (ab : list (gq * gq)),
+    all gq_wf p -> all pair_wf ab -> secular_back_ok p ab ->
+    (Q2C C (List.last p gq_zero) *: (secD (ab2C C ab) - secN (ab2C C ab)) = QP2C C p)%R.
+Proof. exact secular_back_sound. Qed.
+Print Assumptions C19_secular_back_sound.
+
+Theorem C19_chebyshev_back_sound :
+  forall (C : numClosedFieldType) (p : qpoly) (cs : list gq),
+    all gq_wf p -> all gq_wf cs -> chebyshev_back_ok p cs ->
+    QP2C C p = (\sum_(k < size cs) Q2C C (seq.nth gq_zero cs k) *: chebT C k)%R.
+Proof. exact chebyshev_back_sound. Qed.
+Print Assumptions C19_chebyshev_back_sound.
+
+Example C19_chebyshev_back_nonvacuous :
+  chebyshev_back_ok [:: ((1, 0), 1); ((0, 0), 1); ((-3, 0), 1); ((1, 0), 1)]%Z
+                    [:: ((-1, 0), 2); ((3, 0), 4); ((-3, 0), 2); ((1, 0), 4)]%Z = true.
+Proof. by vm_compute. Qed.
+
+(* the three-term recurrence chebT (T0 = 1, T1 = X, T(n+2) = 2 X T(n+1) - T(n)) is the Chebyshev polynomial of
+   the first kind: T_n((z + 1/z)/2) = (z^n + 1/z^n)/2, for every degree *)
+Theorem C19_chebT_joukowski :
+  forall (C : numClosedFieldType) (z : C) (n : nat), z != 0%R ->
+    ((chebT C n).[(z + z^-1) / 2%:R] = (z ^+ n + z ^- n) / 2%:R)%R.
+Proof. exact chebT_joukowski. Qed.
+Print Assumptions C19_chebT_joukowski.
+
+(* ======================================================================================== *)
+(* (7) Matching when roots may be multiple / discs of one family may share roots. *)
+
+(* the general form: both families labelled by the same multiset of points, disc i containing label i *)
+Theorem C19_matching_exists_labelled :
+  forall (T : eqType) (n : nat) (A B : 'I_n -> pred T) (ra rb : n.-tuple T),
+    perm_eq ra rb -> (forall i, A i (tnth ra i)) -> (forall i, B i (tnth rb i)) ->
+    exists s : 'S_n, forall i, exists r, A i r && B (s i) r.
+Proof. exact matching_exists_labelled. Qed.
+Print Assumptions C19_matching_exists_labelled.
+
+(* the form the inclusion property must take for multiple roots: each family can be labelled by the roots of p so
+   that every z is used exactly mu_z(p) times (a root of multiplicity m is the label of m discs) *)
+Theorem C19_matching_exists_mult :
+  forall (R : idomainType) (n : nat) (A B : 'I_n -> pred R) (p : {poly R}) (ra rb : n.-tuple R),
+    (forall z, count_mem z ra = (\mu_z p)%R) -> (forall z, count_mem z rb = (\mu_z p)%R) ->
+    (forall i, A i (tnth ra i)) -> (forall i, B i (tnth rb i)) ->
+    exists s : 'S_n, forall i, exists r, A i r && B (s i) r.
+Proof. exact matching_exists_mult. Qed.
+Print Assumptions C19_matching_exists_mult.
+
+(* such labellings are exactly the orderings of the root list of a split polynomial *)
+Theorem C19_mu_prod_XsubC :
+  forall (R : idomainType) (rs : seq.seq R) (c z : R), c != 0%R ->
+    (\mu_z (c *: \prod_(w <- rs) ('X - w%:P)))%R = count_mem z rs.
+Proof. exact mu_prod_XsubC. Qed.
+Print Assumptions C19_mu_prod_XsubC.
+
+Example C19_matching_exists_mult_nonvacuous :
+  exists (p : {poly rat}) (ra : 3.-tuple rat), forall z, count_mem z ra = (\mu_z p)%R.
+Proof.
+exists (1 *: \prod_(w <- [:: 1; 1; 2%:R]) ('X - w%:P))%R, [tuple 1%R; 1%R; 2%:R%R] => z.
+by rewrite mu_prod_XsubC.
+Qed.
+
+(* C01's own wording for isolated discs: each disc contains exactly one root and each root lies in some disc
+   (discs need not be disjoint) *)
+Theorem C19_matching_exists_isolated :
+  forall (n : nat) (A B : 'I_n -> pred 'I_n),
+    (forall i, exists r, A i r) -> (forall i r r', A i r -> A i r' -> r = r') -> (forall r, exists i, A i r) ->
+    (forall i, exists r, B i r) -> (forall i r r', B i r -> B i r' -> r = r') -> (forall r, exists i, B i r) ->
+    exists s : {perm 'I_n}, forall i, exists r, A i r && B (s i) r.
+Proof. exact matching_exists_isolated. Qed.
+Print Assumptions C19_matching_exists_isolated.
+
+(* ... while the bare coverage form (every disc contains a root, every root is in a disc, n discs for n SIMPLE
+   roots) does not imply C19: two such families over Q that no permutation matches with intersecting discs.
+   This is a statement about which form of C01 is needed, not about the code: no replay applies. *)
+Theorem C19_matching_from_coverage_only_refuted :
+  exists (rs : list (Q * Q)) (dsA dsB : list MatchCheck.disc),
+    covers dsA rs = true /\ covers dsB rs = true /\
+    forall s, check_matching dsA dsB s = false.
+Proof. exact coverage_only_no_matching. Qed.
+Print Assumptions C19_matching_from_coverage_only_refuted.
+
+Theorem C19_covers_spec :
+  forall ds rs, covers ds rs = true <->
+    length ds = length rs /\
+    (forall d, In d ds -> exists r, In r rs /\ inside d r = true) /\
+    (forall r, In r rs -> exists d, In d ds /\ inside d r = true).
+Proof. exact covers_spec. Qed.
+Print Assumptions C19_covers_spec.
